@@ -695,7 +695,7 @@ def c19_post(work, meta, extra):
         se = math.sqrt(var / n)
         dev = abs(mean - st['distinct'])
         ok = dev <= 7 * se + 1e-9 and st['maxlen'] <= st['size']
-        res.append(dict(size=st['size'], distinct=st['distinct'], repeat=st['repeat'], runs=n, mean=round(mean, 3),
+        res.append(dict(size=st['size'], distinct=st['distinct'], repeat=st['repeat'], after_reset=st.get('reuse', 0), runs=n, mean=round(mean, 3),
                         std_err=round(se, 4), deviation_in_std_errs=round(dev / se, 2) if se > 0 else 0.0,
                         max_len_seen=st['maxlen'], ok=ok))
     extra['statistical_conformance'] = res
